@@ -45,6 +45,8 @@ def spec_of(scenario, nonce):
     spec = {"factory": [], "game": {}, "killplay": {}, "killinit": [], "slow": scenario.get("slow", 0.0), "nonce": nonce}
     if scenario.get("pause"):
         spec["compress"] = scenario.get("compress", 1)
+    if scenario.get("exc"):
+        spec["exc"] = scenario["exc"]
     for f in scenario["faults"]:
         t = f.split(":")
         if t[0] == "factory":
